@@ -9,6 +9,7 @@ with the tree the *description* prescribes by the documented rules:
 * attribute field: local name likewise; namespace only when given in the metadata;
 * a nested model value is written under the *field's* name, not its class name;
 * None is omitted, unless the element field is nillable (empty element with xsi:nil="true");
+  an object without content under a nillable field also carries xsi:nil="true";
 * lists repeat the element; `wrapper` adds one enclosing element in the field's namespace
   (also around an empty list);
 * a text field is the element's character content; order is field definition order.
@@ -66,7 +67,7 @@ def rand_model(rng, depth):
              "wrapper": None, "type": "str"}
         if depth > 0 and rng.random() < 0.45:
             f["type"] = rand_model(rng, depth - 1)
-            f["nillable"] = False
+            f["nillable"] = f["nillable"] and not f["list"]
         elif f["list"] and rng.random() < 0.4:
             f["wrapper"] = rng.choice(["wrap", "items"])
             f["local"] = f["local"] or "item"
@@ -84,7 +85,7 @@ def rand_instance(rng, m):
     inst = {}
     for f in m["fields"]:
         if f["kind"] == "attribute":
-            inst[f["name"]] = rng.choice([None, rng.choice(TEXTS[:3] + TEXTS[4:])])
+            inst[f["name"]] = rng.choice([None, rng.choice(TEXTS)])
         elif f["kind"] == "text":
             inst[f["name"]] = rng.choice([None, rng.choice(TEXTS)])
         else:
@@ -182,7 +183,11 @@ def expected(m, inst, name, parent_ns):
                         items.append(["e", ens, local, [[S.XSI, "nil", "true"]], []])
                     continue
                 if isinstance(f["type"], dict):
-                    items.append(expected(f["type"], x, (ens, local), name[0]))
+                    node = expected(f["type"], x, (ens, local), name[0])
+                    has_text = any(g["kind"] == "text" and x[g["name"]] is not None for g in f["type"]["fields"])
+                    if f["nillable"] and not node[4] and not has_text:
+                        node[3].append([S.XSI, "nil", "true"])   # an object without content under a nillable field
+                    items.append(node)
                 else:
                     items.append(["e", ens, local, [], [["t", x]] if x else []])
             if f["wrapper"]:
@@ -238,7 +243,7 @@ def covered_object(a, msg):
         return None
     w, kind = mm.group(1), mm.group(2)
     fake = {"ns_map": a["ns_map"], "events": [], "cfg": {}}
-    for fid in ("c03-reserved-prefix",):
+    for fid in ("c03-prefix-unicode-ncname",):
         pred, where = O.KNOWN[fid]
         if kind in where.get(w, ()) and pred(fake):
             return fid
@@ -250,7 +255,7 @@ OBJ_MAPS = [[], [], [[None, "urn:m1"]], [["", "urn:m2"]], [["p", "urn:m1"]], [["
 
 
 def gen_object(rng, tier):
-    n = 500 if tier == "quick" else 6000
+    n = 500 if tier == "quick" else 15000
     for _ in range(n):
         m = rand_model(rng, rng.choice([0, 1, 1, 2]))
         yield {"model": m, "inst": rand_instance(rng, m), "ns_map": [list(x) for x in rng.choice(OBJ_MAPS)]}
@@ -263,7 +268,7 @@ SAFE_OBJ_MAPS = [[], [], [["p", "urn:m1"], ["q", "urn:f1"]], [["unused", "urn:zz
 
 
 def gen_ser_object(rng, tier):
-    n = 600 if tier == "quick" else 8000
+    n = 600 if tier == "quick" else 20000
     for _ in range(n):
         m = rand_model(rng, rng.choice([0, 1, 1, 2, 2]))
         yield {"model": m, "inst": rand_instance(rng, m), "ns_map": [list(x) for x in rng.choice(SAFE_OBJ_MAPS)]}
